@@ -45,6 +45,8 @@ type reqCase struct {
 	Level   string `json:"level"`
 	// Cut > 0: the frame is delivered in two reads, Frame[:Cut] then Frame[Cut:]
 	Cut int `json:"cut,omitempty"`
+	// PauseMs: real silence between the two reads (needs Cut)
+	PauseMs int `json:"pause_ms,omitempty"`
 }
 
 func exception(frame []byte, code uint8) []byte {
@@ -201,7 +203,10 @@ func runAssembler(c reqCase) ([]string, error) {
 		if c.Cut > 0 && c.Cut < len(c.Frame) {
 			parts = [][]byte{c.Frame[:c.Cut], c.Frame[c.Cut:]}
 		}
-		for _, part := range parts {
+		for i, part := range parts {
+			if i > 0 && c.PauseMs > 0 {
+				time.Sleep(time.Duration(c.PauseMs) * time.Millisecond)
+			}
 			buf := append([]byte(nil), part...)
 			o, _ := asm.ReceiveRead(context.Background(), buf, len(buf))
 			out = append(out, o...)
@@ -320,7 +325,10 @@ func runServer(c reqCase) ([]string, error) {
 	if c.Cut > 0 && c.Cut < len(c.Frame) {
 		parts = [][]byte{c.Frame[:c.Cut], c.Frame[c.Cut:]}
 	}
-	for _, part := range parts {
+	for i, part := range parts {
+		if i > 0 && c.PauseMs > 0 {
+			time.Sleep(time.Duration(c.PauseMs) * time.Millisecond)
+		}
 		if _, err := conn.Write(part); err != nil {
 			return nil, fmt.Errorf("server did not read the request: %v", err)
 		}
@@ -604,6 +612,35 @@ var chkCrowd = harness.Define("concurrent-rejections",
 	func(t *rapid.T) crowdCase {
 		return crowdCase{Conns: rapid.IntRange(2, 8).Draw(t, "conns"), PerConn: rapid.IntRange(5, 40).Draw(t, "per_conn"), Seed: rapid.Uint64().Draw(t, "seed"), Procs: rapid.SampledFrom([]int{2, 4, 16}).Draw(t, "procs")}
 	}, runCrowd)
+
+// TestSlowFragments: a frame whose second part arrives after a real silence (60 ms, 650 ms, 1.2 s): a slow client is still one client.
+func TestSlowFragments(t *testing.T) {
+	idx := 0
+	frames := []reqCase{
+		{Class: "valid", Handler: "device", Frame: spec.EncodeRequest(spec.TCP, spec.Req{FC: 16, Unit: 1, Tx: 0x1234, Addr: 10, Qty: 2, ByteCount: 4, Payload: []byte{0xBB, 0xBB, 0x10, 0x03}}), Cut: 13},
+		{Class: "out-of-range", Handler: "device", Frame: spec.EncodeRequest(spec.TCP, spec.Req{FC: 3, Unit: 9, Tx: 0x4321, Addr: 1, Qty: 126}), Cut: 9},
+		{Class: "unsupported", Handler: "device", Frame: spec.Frame(spec.TCP, 0x0BAD, 7, []byte{43, 14, 1, 0}), Cut: 10},
+	}
+	for _, level := range []string{"A", "B"} {
+		for _, pause := range []int{60, 650, 1200} {
+			for _, fr := range frames {
+				idx++
+				if !harness.Mine(idx) {
+					continue
+				}
+				c := fr
+				c.Level, c.PauseMs, c.DevSeed = level, pause, uint64(idx)
+				ck := chkA
+				if level == "B" {
+					ck = chkB
+				}
+				if !ck.Eval(t, c) {
+					return
+				}
+			}
+		}
+	}
+}
 
 func TestCrowd(t *testing.T) {
 	chkCrowd.Rapid(t, harness.Pick(12, 300))
